@@ -1014,11 +1014,13 @@ func (is *IndexSnapshot) CopyTo(d index.Directory) error {
 		return err
 	}
 
+	is.parent.verifPoint("copy.begin")
 	_, _, err = prepareBoltSnapshot(is, tx, "", is.parent.segPlugin, d)
 	if err != nil {
 		_ = tx.Rollback()
 		return fmt.Errorf("error backing up index snapshot: %v", err)
 	}
+	is.parent.verifPoint("copy.beforeCommit")
 
 	// commit bolt data
 	err = tx.Commit()
